@@ -51,6 +51,12 @@ bool Instance::parse_transaction(const char* txdata, bool parse_amounts) {
     }
     tx = parse_tx(p);
     if (!tx) return false;
+    if (tx->vin.empty()) {
+        // nothing to debug, and the per-input amount/checker set-up below indexes input 0
+        fprintf(stderr, "error: transaction has no inputs\n");
+        tx = nullptr;
+        return false;
+    }
     while (amounts.size() < tx->vin.size()) amounts.push_back(0);
     if (tx->HasWitness()) sigver = SigVersion::WITNESS_V0;
     return true;
